@@ -73,9 +73,9 @@ META['C07'] = dict(
   note=_ENG_NOTE)
 META['C08'] = dict(
   text=("Kernel-checked for ALL programs (also malformed), inputs, fuel: Vm.Run keeps the cache invariant of C09 — accounting matches contents, one scope per symbol, limits (run_keeps_cache_valid, via a relational Hoare logic over every "
-        "instruction handler); every move keeps one cache scope per navigation level (applyTarget_keeps_lockstep); moves never panic within 128 levels and no self-move (applyTarget_no_panic); decoders never panic (C15). Negation witnesses for the open "
+        "instruction handler), and so does the whole ENGINE: Exec (init, entry function, reset on empty input, VM run, end-of-code handling) and Flush (render, unwinding), hence every request history of a long-lived engine and every snapshot ever stored in persisted operation hold a valid cache (long_lived_engine_keeps_cache_valid, persisted_engine_keeps_cache_valid); every move keeps one cache scope per navigation level (applyTarget_keeps_lockstep); moves never panic within 128 levels and no self-move (applyTarget_no_panic); decoders never panic (C15). Negation witnesses for the open "
         "findings: Down panics at level 129 / same node, CROAK breaks the lockstep. Oracle: recover() around Exec/Flush/Finish + invariants recomputed from exported fields on every request of wf=1 applications; the cache suite's accounting oracles run as well."),
-  note=_ENG_NOTE + "Four open findings (duplicate-selector panic, code lost after a failed request, maxlevel, CROAK scope) are replayed every run; engine-level (Exec/Flush/reset) preservation of the invariants is by correspondence + oracle, not yet by theorem.")
+  note=_ENG_NOTE + "Four open findings (duplicate-selector panic, code lost after a failed request, maxlevel, CROAK scope) are replayed every run; engine-level preservation of the scope/level lockstep and panic freedom of Exec/Flush are by correspondence + oracle, not by theorem (they are false on the tree: the findings).")
 META['C17'] = dict(
   text=("Kernel-checked: a format-refused input makes Exec return its error with the engine EXACTLY as it was (exec_format_refused_no_effect: state, flags, cache, code, page, logs, bookkeeping), for every engine state, with or without first function; "
         "histories with refused inputs inserted anywhere observe the same as without them (longRun_erase_refused, by induction); a per-request engine leaves the store as it was; Flush before Exec is refused without effect; over-long input leaves the session untouched. "
